@@ -91,6 +91,8 @@ def finish(rep, tier, seed, t0, meta, census, extra=None):
         if k["property"] == prop:
             kmap[k["key"]] = k
     ev_dir = os.path.join(VERIF, "evidence")
+    if os.path.realpath(meta.get("root") or "/repo") != os.path.realpath(os.environ.get("MW_REPO", "/repo")):
+        ev_dir = os.path.join(VERIF, ".work", "evidence-scratch")   # a mutant/scratch tree never rewrites real evidence
     rp_dir = os.path.join(ev_dir, "replay")
     os.makedirs(rp_dir, exist_ok=True)
     for fn in os.listdir(rp_dir):
